@@ -82,8 +82,6 @@ PROPS["C07"] = dict(
 
 NOT_YET = "not claimed yet in this commit: unit under construction (see DESIGN.md §4 for the planned contracts)"
 NOT_APPLICABLE = {
-    "C01": NOT_YET, "C02": NOT_YET, "C06": NOT_YET,
-    "C10": NOT_YET, "C11": NOT_YET, "C12": NOT_YET, "C13": NOT_YET, "C14": NOT_YET, "C15": NOT_YET, "C17": NOT_YET,
     "C08": "schedule/thread independence and run-to-run determinism: Kani has no threads, Verus would need its own permission types inside rayon; determinism of two runs is a 2-safety property with no per-call contract; the one contract-shaped clause (optimize_with keeps a supplied generator) sits behind State + eyre, which neither verifier reaches (DESIGN.md §2 facts 6, 7, 18; §6)",
     "C16": "whole-run property of 21 template compositions of dyn components over State; no function-level contract decides it, and composing per-component stack-effect contracts needs an interpreter of the template tree, i.e. a model (DESIGN.md §6)",
     "C18": "all mechanisms live in State-based execute bodies built from multizip loops and f64 arithmetic; Verus rejects iterator adapters and float negation and treats f64 as uninterpreted, Kani cannot enter State (DESIGN.md §2 facts 7, 19; §6)",
@@ -94,11 +92,13 @@ NOT_APPLICABLE = {
 MANIFEST_TEXT = {
     "C05": dict(
         category="other",
-        technique="Verus contracts on the real Individual methods (extracted verbatim each run), Z3",
+        technique="Verus contracts on the real Individual methods (extracted verbatim each run) + Kani triples on copy paths and collection helpers",
         text=("Every method of `Individual` is extracted verbatim from /repo on each run and verified by Verus against a contract "
               "over the view (solution, objective): solution_mut clears the objective and hands out exactly the solution; "
               "evaluate_with stores the function's result for the unchanged solution; readers and clone keep both fields "
-              "together. Unbounded (all encodings, all objective values, all objective functions)."),
+              "together. Unbounded (all encodings, all objective values, all objective functions). Copy paths Verus cannot enter "
+              "(Clone::clone_from, Vec::clone_from) and the collection helpers (as_solutions_mut, into_individuals, into_solutions) are "
+              "Kani Hoare triples at sizes <= 2, hence level 'other'."),
         note=("Trusted: mirror of the Problem trait (associated types only), vstd specs of Option/Clone. The clause about every "
               "step of every shipped heuristic is NOT decided (whole runs); listed under uncovered_clauses in the evidence."),
     ),
@@ -146,8 +146,9 @@ PROPS["C13"] = dict(
     level="other",
     explanation=("Hoare triples on the real functional helpers (mutation/functional.rs, recombination/functional.rs) discharged by "
                  "CBMC at concrete lengths with symbolic contents and index tuples under the functions' documented preconditions."),
-    verus=[], kani=[dict(files=["contracts/C13/c13.rs"])],
-    min_obligations={"quick": 10, "thorough": 15},
+    verus=[dict(name="params", template="contracts/C13/params.vrs", expect=["SwapMutation::from_params"])],
+    kani=[dict(files=["contracts/C13/c13.rs"])],
+    min_obligations={"quick": 10, "thorough": 19},
     uncovered=["mutation components' execute (State + RNG)", "recombination() driver", "real/bit mutations gated by the rate"],
 )
 PROPS["C14"] = dict(
@@ -155,7 +156,7 @@ PROPS["C14"] = dict(
     explanation=("Hoare triples on the real BoundaryConstraint::constrain implementations, one coordinate, domain and coordinate "
                  "symbolic f64 within the stated regime; termination by unwinding assertion."),
     verus=[], kani=[dict(files=["contracts/C14/c14.rs"])],
-    min_obligations={"quick": 6, "thorough": 6},
+    min_obligations={"quick": 12, "thorough": 15},
     uncovered=["initialisation operators (rejection-sampling loops over a symbolic RNG are unbounded)", "resampling distribution",
                "boundary_constraint driver over populations"],
 )
@@ -214,4 +215,43 @@ PROPS["C15"] = dict(
     kani=[],
     min_obligations={"quick": 3, "thorough": 3},
     uncovered=["JSON/CBOR/RON serialisation and decoding", "every template serialises / distinct configurations serialise differently"],
+)
+
+REG_FILES = ["src/state/registry/mod.rs", "src/state/registry/entry.rs", "src/state/registry/multi.rs"]
+PROPS["C01"] = dict(
+    level="other",
+    explanation=("Per-operation Hoare triples on the real StateRegistry against the model operation on an abstract stack-of-maps view "
+                 "(observed through parent()/contains_at_top/value reads only), discharged by CBMC at enumerated concrete shapes "
+                 "(which of the types {A,B} exist in which scope, depth <= 2 quick / <= 3 thorough) with symbolic payloads. "
+                 "All histories that stay within the bound agree with the model by induction over operations (not machine-checked)."),
+    verus=[],
+    kani=[dict(files=["contracts/C01/c01.rs"], map_shim=True, map_shim_files=REG_FILES, harness_timeout="900s", timeout_s=2700)],
+    min_obligations={"quick": 30, "thorough": 150},
+    trusted=["std HashMap/HashSet replaced by an association list with the same interface under cfg(kani) (shim/verif_map.rs)",
+             "std::cell::RefCell, better_any downcasts: exercised, not specified"],
+    uncovered=["histories beyond the enumerated shapes (induction over operations is not machine-checked)", "take / panicking accessors"],
+)
+PROPS["C17"] = dict(
+    level="other",
+    explanation=("Verus: ExponentialAnnealingAcceptance::execute extracted verbatim; decision structure of the Metropolis rule against the "
+                 "C04 Populations contracts (strictly better candidate always survives; exactly one population replaces the two; "
+                 "survivor is one of the two). Kani: GeometricCooling::map = value * alpha over all f64 (complete)."),
+    verus=[dict(name="acceptance", template="contracts/C17/acceptance.vrs",
+                expect=["<ExponentialAnnealingAcceptance as Component<P>>::execute"])],
+    kani=[dict(files=["contracts/C17/c17.rs"])],
+    min_obligations={"quick": 26, "thorough": 26},
+    uncovered=["the acceptance probability itself (statistical) and 'equally good is always accepted' (needs exp(0) = 1 > u: floats are uninterpreted in Verus)",
+               "mapping() driver applying the cooling through lenses"],
+    assumptions=["float operations are defined (vstd sub_req/div_req lifted into the precondition)"],
+)
+
+PROPS["C06"] = dict(
+    level="other",
+    explanation=("Kani Hoare triple on the real Sequential::evaluate with a call-logging objective function at population sizes 0, 1, 3: "
+                 "every individual evaluated exactly once, in order, solutions untouched, objective = f(solution)."),
+    verus=[], kani=[dict(files=["contracts/C06/c06.rs"])],
+    min_obligations={"quick": 3, "thorough": 3},
+    uncovered=["PopulationEvaluator::execute incl. the evaluation COUNTER (closure capturing &mut population: Verus rejects; State + eyre: Kani cannot)",
+               "require (missing evaluator is an error before anything executes)", "Parallel evaluator (threads)",
+               "whole-run equality 'reported evaluations = objective-function invocations'", "firefly update's own counting"],
 )
